@@ -236,6 +236,9 @@ func vC11GenScenario(r *rand.Rand) *vC11Scenario {
 			rq.timeout = 60000
 		}
 		rq.internal = r.Intn(25) == 0
+		if r.Intn(12) == 0 && !probeLimit {
+			rq.timeout = 0 // the budget is already gone when the request reaches the cache
+		}
 		if i == 0 {
 			switch r.Intn(10) {
 			case 0:
